@@ -286,7 +286,44 @@ def composition(ctx, rule="R04.3"):
     ctx.check([ast.unparse(s.value) for s in pdf.body if isinstance(s, ast.Return)] == ["spectral_rad_pdf(self, r)"], rule, BASE + "::CovModel.spectral_rad_pdf", "method delegates to tools.spectral_rad_pdf(self, r)", "delegate")
 
 
+FORMULA_FILES = ("covmodel/models.py", "covmodel/tpl_models.py", "covmodel/base.py", "covmodel/tools.py", "tools/special.py")
+LIKE = ("np.empty_like", "np.ones_like", "np.zeros_like", "np.full_like")
+
+
+def float_buffers(ctx, rule="R04.7"):
+    """A result buffer allocated `like` another array inherits that array's dtype: in the model formulas (correlations, spectral densities,
+    special functions) the template must certainly be floating point whatever the caller passes - converted with dtype=np.double, or
+    produced by a true division / float operation - or the allocation names a float dtype itself.  Integer wave numbers or lags would
+    otherwise truncate every stored value."""
+    from ..small import _sym_subst, floatness, sym_eval, sym_text
+
+    n = 0
+    for mm, q, fn, ci, kind in ctx.prog.all_functions():
+        if mm.relpath not in FORMULA_FILES:
+            continue
+        for st in [x for x in ast.walk(fn) if isinstance(x, ast.stmt)]:
+            for c in [x for x in ast.walk(st) if isinstance(x, ast.Call) and ast.unparse(x.func) in LIKE and x.args]:
+                if any(c in ast.walk(sub) for blk in ("body", "orelse", "finalbody") for sub in (getattr(st, blk, None) or []) if isinstance(sub, ast.stmt)):
+                    continue
+                n += 1
+                site = "%s::%s" % (mm.relpath, q)
+                dt = [k.value for k in c.keywords if k.arg == "dtype"]
+                if dt:
+                    ctx.check(ast.unparse(dt[0]) in ("np.double", "float", "np.float64"), rule, site, "%s names the dtype %s" % (ast.unparse(c)[:50], ast.unparse(dt[0])), "like-dtype:%s" % ast.unparse(c.args[0]))
+                    continue
+                owner = next((f for f in ast.walk(fn) if isinstance(f, ast.FunctionDef) and f is not fn and any(x is st for x in ast.walk(f))), fn)
+                env = sym_eval(owner.body, stop=st, element_stores_kill=False)
+                v = _sym_subst(c.args[0], env)
+                ctx.check(floatness(v), rule, site, "template of %s is %s: %s" % (ast.unparse(c)[:40], sym_text(v)[:70], "certainly floating point" if floatness(v) else "carries the caller's dtype (integer input truncates the results)"),
+                          "like-float:%s" % ast.unparse(c.args[0]))
+    ctx.floor(rule, "`*_like` allocations in the model formulas", n, 12)
+
+
 def run(ctx):
+    float_buffers(ctx)
+    from .C03 import dimension_attribute
+
+    dimension_attribute(ctx, rule="R04.8")  # correlation and spectral density are a Fourier pair in ONE dimension
     from .C03 import tpl_weights
     from .C14 import no_cached_derived
 
